@@ -43,7 +43,7 @@ func NewStatesPaletteContainerWithData(length int, data []uint64, pat []BlocksSt
 	case 1, 2, 3, 4:
 		n = 4
 		p = &linearPalette[BlocksState]{
-			values: pat,
+			values: ownPalette(pat, n),
 			bits:   n,
 		}
 	case 5, 6, 7, 8:
@@ -53,11 +53,16 @@ func NewStatesPaletteContainerWithData(length int, data []uint64, pat []BlocksSt
 		}
 		p = &hashPalette[BlocksState]{
 			ids:    ids,
-			values: pat,
+			values: ownPalette(pat, n),
 			bits:   n,
 		}
 	default:
 		p = &globalPalette[BlocksState]{}
+		if len(pat) > 0 {
+			// a saved section keeps its palette however large it is; the containers only index palettes of
+			// up to 8 bits, so the indices are resolved into direct state ids
+			data, n = resolveSaved(n, block.BitsPerBlock, length, data, pat), block.BitsPerBlock
+		}
 	}
 	return &PaletteContainer[BlocksState]{
 		bits:    n,
@@ -67,6 +72,29 @@ func NewStatesPaletteContainerWithData(length int, data []uint64, pat []BlocksSt
 	}
 }
 
+// ownPalette copies a caller's palette into a slice of the capacity the indirect palettes work with (they grow
+// until 2^bits entries): the caller's slice is neither kept nor is its capacity taken for the limit.
+func ownPalette[T State](pat []T, bits int) []T {
+	values := make([]T, len(pat), max(len(pat), 1<<bits))
+	copy(values, pat)
+	return values
+}
+
+// resolveSaved converts saved data that indexes a palette (bits wide) into data holding the palette's values
+// themselves (directBits wide).
+func resolveSaved[T State](bits, directBits, length int, data []uint64, pat []T) []uint64 {
+	indices := NewBitStorage(bits, length, data)
+	direct := NewBitStorage(directBits, length, nil)
+	for i := 0; i < length; i++ {
+		idx := indices.Get(i)
+		if idx >= len(pat) {
+			panic("level: saved data refers to palette entry " + strconv.Itoa(idx) + " of " + strconv.Itoa(len(pat)))
+		}
+		direct.Set(i, int(pat[idx]))
+	}
+	return direct.Raw()
+}
+
 // savedBitsPerValue returns the index width of a saved (palette, data) pair.
 // The number of longs alone is ambiguous (64 values of 3 bits and of 4 bits both
 // take 4 longs; 15-bit and 16-bit values both pack 4 per long), so the palette
@@ -74,7 +102,8 @@ func NewStatesPaletteContainerWithData(length int, data []uint64, pat []BlocksSt
 // matches the data length; without one, the registry-wide direct width.
 func savedBitsPerValue(length, longs, paletteLen, minBits, maxIndirectBits, directBits int) int {
 	if paletteLen > 1 {
-		for b := minBits; b <= maxIndirectBits; b++ {
+		// also beyond maxIndirectBits: saved sections index palettes of any size
+		for b := minBits; b <= 31; b++ {
 			if 1<<b >= paletteLen && calcBitStorageSize(b, length) == longs {
 				return b
 			}
@@ -103,11 +132,14 @@ func NewBiomesPaletteContainerWithData(length int, data []uint64, pat []BiomesSt
 		p = &singleValuePalette[BiomesState]{pat[0]}
 	case 1, 2, 3:
 		p = &linearPalette[BiomesState]{
-			values: pat,
+			values: ownPalette(pat, n),
 			bits:   n,
 		}
 	default:
 		p = &globalPalette[BiomesState]{}
+		if len(pat) > 0 {
+			data, n = resolveSaved(n, biome.BitsPerBiome, length, data, pat), biome.BitsPerBiome
+		}
 	}
 	return &PaletteContainer[BiomesState]{
 		bits:    n,
